@@ -91,9 +91,9 @@ pub fn build(spec: &ChainSpec) -> (Vec<(String, Tpl)>, Vec<String>) {
                 Item::FilterSec(inner) => out.push(S::Filter { name: "upper".into(), kwargs: vec![], body: conv(inner, level, cur, counter, known, new_names, marker) }),
                 Item::SetBlockThenPrint(inner) => {
                     out.push(S::SetBlock { name: "cap".into(), filters: vec![], body: conv(inner, level, cur, counter, known, new_names, marker), global: false });
-                    out.push(S::Text("{".into()));
+                    out.push(S::Text("(cap:".into()));
                     out.push(S::Print(E::Var("cap".into())));
-                    out.push(S::Text("}".into()));
+                    out.push(S::Text(")".into()));
                 }
                 Item::CompBody(inner) => out.push(S::Comp { name: "Wrap".into(), args: vec![], body: Some(conv(inner, level, cur, counter, known, new_names, marker)) }),
                 Item::Super | Item::SuperTwice | Item::SuperInLoop | Item::SuperInCapture if cur.is_none() => {}
@@ -171,7 +171,10 @@ pub fn chain_sources(spec: &ChainSpec) -> (Vec<(String, String)>, Vec<String>, V
             }
         }
         names.push(known.clone());
-        t.body = stmtgen::with_obs(t.body, false);
+        // a quarter of the chains stay uninstrumented: only there can a block body be empty (an empty override, a block holding nothing)
+        if spec.order % 4 != 0 {
+            t.body = stmtgen::with_obs(t.body, false);
+        }
         t.parent = t.parent.as_ref().map(|p| rename(p));
         sources.push((rename(n), t.source()));
         order.push(rename(n));
@@ -190,7 +193,10 @@ pub fn check_chain(spec: &ChainSpec, ctx: &Ctx, salt: u64, l: &mut Local) -> Che
     let mut world: BTreeMap<String, Tpl> = BTreeMap::new();
     for (n, t) in &tpls {
         let mut t = t.clone();
-        t.body = stmtgen::with_obs(t.body, false);
+        // a quarter of the chains stay uninstrumented: only there can a block body be empty (an empty override, a block holding nothing)
+        if spec.order % 4 != 0 {
+            t.body = stmtgen::with_obs(t.body, false);
+        }
         t.parent = t.parent.as_ref().map(|p| rename(p));
         world.insert(rename(n), t);
     }
